@@ -53,6 +53,9 @@ const MALFORMED: &[(&str, &str, bool)] = &[
     ("version-major-then-string", "OPENQASM 3\"a\";", false),
     ("version-minor-not-a-number", "OPENQASM 3.x;", false),
     ("ident-with-emoji", "a😀b", false),
+    ("ident-pragma-emoji", "pragma😀", false),
+    ("ident-pragma-emoji-tail", "pragma😀abc", false),
+    ("ident-keyword-emoji", "gate😀", false),
     ("ident-emoji-only", "😀", false),
     ("ident-hash", "#foo", false),
     ("hardware-emoji", "$😀", false),
@@ -121,6 +124,30 @@ fn check_gate_lex(text: &str, clean: bool, have: bool, msgs: &[String], obs: &mu
             obs.violate("no-tree-and-no-diagnostic/any", format!("{text:?}"));
         }
         obs.class("lexical-error-no-tree");
+    }
+}
+
+/// A second malformed lexeme in front: an identifier glued to the closing quote of a string (itself a
+/// lexical error).  Every malformed lexeme is still diagnosed *on that lexeme*.
+const SUFFIXED_STRINGS: &[&str] = &["\"lib.inc\"suffix", "\"01\"b2", "'s'x_long_suffix_name", "\"é\"é"];
+
+fn after_suffixed_string_case(idx: u64, obs: &mut Obs) {
+    let mi = (idx as usize / SUFFIXED_STRINGS.len()) % MALFORMED.len();
+    let pre = SUFFIXED_STRINGS[idx as usize % SUFFIXED_STRINGS.len()];
+    let (mname, mtext, _) = MALFORMED[mi];
+    let text = format!("include {pre};\nint x = {mtext}");
+    let start = text.len() - mtext.len();
+    check_splice(&text, (start, text.len()), mname, "after-suffixed-string", obs);
+    // and the first one is located on the string token
+    let r = guard(|| {
+        let lx = LexedStr::new(&text);
+        lx.errors().map(|(i, _)| lx.text_range(i)).map(|r| (r.start, r.end)).collect::<Vec<_>>()
+    });
+    if let Ok(errs) = r {
+        let s0 = "include ".len();
+        if !errs.iter().any(|(a, b)| *a < s0 + pre.len() && *b > s0) {
+            obs.violate("malformed-lexeme-not-diagnosed/string-with-glued-identifier/first", format!("{text:?}: lexical errors at {errs:?}"));
+        }
     }
 }
 
@@ -391,6 +418,7 @@ impl Property for C11 {
     fn streams(&self, tier: Tier, seed: u64) -> Vec<Stream> {
         let mut v = vec![
             Stream::new("malformed-lexeme-splice-table", splice_count(), true, |i| format!("splice:{i}")),
+            Stream::new("malformed-lexeme-after-a-suffixed-string", (MALFORMED.len() * SUFFIXED_STRINGS.len()) as u64, true, |i| format!("dbl:{i}")),
             Stream::new("pipeline-gating-programs", tier.pick(30_000, 1_500_000), false, move |i| format!("gate:{}", mix(&[seed, 0xC11, 1, i]))),
             Stream::new("pipeline-gating-include-chains", tier.pick(1_500, 40_000), false, move |i| format!("inc:{}", mix(&[seed, 0xC11, 2, i]))),
         ];
@@ -405,6 +433,10 @@ impl Property for C11 {
     fn check(&self, input: &str, obs: &mut Obs) {
         if let Some(rest) = input.strip_prefix("splice:") {
             splice_case(rest.parse().unwrap_or(0), obs);
+            return;
+        }
+        if let Some(rest) = input.strip_prefix("dbl:") {
+            after_suffixed_string_case(rest.parse().unwrap_or(0), obs);
             return;
         }
         if let Some(rest) = input.strip_prefix("gate:") {
